@@ -124,6 +124,24 @@ def gen_cases(tier, seed):
             s['trigger'] = 'event'
             s['cancel_msg'] = rng.choice(msgs)
         cases.append(s)
+    # a download to a file cancelled after some of it was written, where one of the cleanup steps itself fails (closing the
+    # temporary file raises: ENOSPC / EIO on the final flush): the remaining cleanups - removing the temporary file - still run
+    for i in range(50 if quick else 500):
+        size = rng.choice([7, 13, 20, 27, 40])
+        cfg = dict(multipart_threshold=16, multipart_chunksize=8, io_chunksize=4, max_request_concurrency=rng.choice([1, 2, 3]),
+                   max_io_queue_size=rng.choice([1, 2, 1000]))
+        how = rng.choice(['future.cancel', 'future.cancel', 'shutdown_cancel', 'with_exc', 'with_kbi'])
+        nw = (size + 3) // 4
+        s = {'seed': rng.randrange(1 << 30), 'config': cfg, 'entry': how, 'family': 'cleanup-step-fails', 'dirwatch': True,
+             'transfers': [{'kind': 'download', 'dst': 'path', 'size': size, 'preexisting': rng.random() < 0.5}],
+             'plan': {'cancel': {'at': f't0/fs:write#{rng.randrange(0, max(1, nw - 1))}', 'phase': 'after', 'how': how,
+                                 'from': rng.choice(['main', 'event']) if how == 'future.cancel' else 'main'},
+                      'faults': [{'at': 't0/fs:close#0', 'phase': 'before', 'kind': 'oserror', 'tag': 'FAULT-close'}]}}
+        if how != 'future.cancel':
+            s['mode'] = how
+            s['trigger'] = 'event'
+            s['cancel_msg'] = rng.choice(msgs)
+        cases.append(s)
     # Ctrl-C (a real SIGINT delivered to the main thread with pthread_kill) while the user is blocked in result() / shutdown()
     for bi, base in enumerate(bases()):
         t = base['transfers'][0]
